@@ -163,6 +163,28 @@ def sub_family(mode: str, version: int, thorough: bool = False) -> List[Tuple[st
                                                        ("Return", ("Bin", "Add", ("Call", "C", Q), ("Load", "xb"))))),
          "C": _sub([("val", "n")], "u", ("Bin", "Add", ("Call", "A", P), ("Int", 1)))},
         {"xa": {"t": "u"}, "xb": {"t": "u"}})
+    # rings of 4 and 5 mutually recursive routines (different arities / result kinds), each reading a local after its call
+    for size in (4, 5):
+        names = ["R%d" % i for i in range(size)]
+        subs, vs = {}, {}
+        for i, nm in enumerate(names):
+            nxt = names[(i + 1) % size]
+            loc = "x%d" % i
+            vs[loc] = {"t": "u"}
+            extra = [("val", "a%d" % t) for t in range(i % 3)]
+            nxt_extra = tuple(("Int", 3 + t) for t in range(((i + 1) % size) % 3))
+            callnext = ("Call", nxt, dec) + nxt_extra
+            if (i + 1) % size == 2:
+                callnext = ("Un", "Len", callnext)           # routine 2 returns bytes
+            body_val = ("Bin", "Add", callnext, ("Load", loc))
+            if i == 2:
+                body = ("Seq", ("Store", loc, ("Bin", "Add", P, ("Int", 10 * (i + 1)))), ("If", ("Bin", "Eq", P, ("Int", 0)), ("Return", ("Bytes", b"z"))),
+                        ("Return", ("Un", "BytesZero", ("Bin", "Mod", body_val, ("Int", 50)))))
+            else:
+                body = ("Seq", ("Store", loc, ("Bin", "Add", P, ("Int", 10 * (i + 1)))), ("If", ("Bin", "Eq", P, ("Int", 0)), ("Return", ("Int", i + 1))),
+                        ("Return", body_val))
+            subs[nm] = _sub([("val", "n")] + extra, "b" if i == 2 else "u", body)
+        add("ring%d" % size, ("Return", ("Call", "R0", ("Bin", "Mod", N, ("Int", size + 2)))), subs, vs, {"call_depth": size + 3, "max_paths": 6000})
     # ---- Return positions
     add("ret-in-loop", ("Return", ("Call", "f", N)),
         {"f": _sub([("val", "n")], "u", ("Seq", ("Store", "i", ("Int", 0)),
